@@ -378,6 +378,21 @@ func runC04(outDir string, seed int64, tier string) {
 		"deep goals under catch/3 (an error raised 600 levels down, caught, not caught, caught outside an older choice point); caught balls that Recovery or the continuation instantiates and throws again (one to three levels, after backtracking into Recovery, not caught again); exhaustive control skeletons; random programs as for C03 plus catch/3 and throw/1 at any nesting with balls that do or do not unify with the catchers and share variables with the goal, built-in errors (type, instantiation, evaluation), throws after a catch/3 goal has exited and after backtracking into it; answers and the final error term compared; distinct by program+query text; non-trivial = at least one answer or an error")
 }
 
+// c11BoundCaret: V^Goal where, at the time of the call, V is bound -- aliased to a fresh variable
+// that is written in its place, or wrapped in a term bound to the variable written on the left of ^
+func c11BoundCaret(r *rng, which string, tmpl, goal, inst *G) *G {
+	v, g := goal.Args[0], goal.Args[1]
+	a := gv(11)
+	switch r.intn(3) {
+	case 0: // Y = Z, bagof(T, Y^G(Z), L)
+		return gc(",", gc("=", a, v), gc(which, tmpl, gc("^", a, g), inst))
+	case 1: // Q = f(V), bagof(T, Q^G(V), L)
+		return gc(",", gc("=", a, gc("f", v)), gc(which, tmpl, gc("^", a, g), inst))
+	default: // Q = f(V, W), bagof(T, Q^G, L): two variables quantified through one bound term
+		return gc(",", gc("=", a, gc("f", v, gv(2))), gc(which, tmpl, gc("^", a, g), inst))
+	}
+}
+
 func runC11(outDir string, seed int64, tier string) {
 	f := feat{findall: true, bag: true, neg: true, callN: true, nestedOr: true, topOr: true, arith: true}
 	runProgProperty("C11", outDir, seed, tier, func(r *rng, i int) *progCase {
@@ -436,7 +451,9 @@ func runC11(outDir string, seed int64, tier string) {
 					tmpl = gv(0)
 				}
 				pc.prog.query = gc(which, tmpl, goal, gv(3))
-				if r.coin(0.3) {
+				if goal.S == "^" && r.coin(0.5) {
+					pc.prog.query = c11BoundCaret(r, which, tmpl, goal, gv(3))
+				} else if r.coin(0.3) {
 					pc.prog.query = gc(",", gc("=", gv(9), goal), gc(which, tmpl, gv(9), gv(3)))
 				}
 				return pc
@@ -472,6 +489,12 @@ func runC11(outDir string, seed int64, tier string) {
 				goal = wrapped
 			}
 			pc.prog.query = gc(which, tmpl, goal, inst)
+			if which != "findall" && goal.K == 'c' && goal.S == "^" && r.coin(0.45) {
+				// the ^-quantified variable is already bound when bagof/setof is called: to another variable
+				// of the goal, or it occurs inside a term that stands on the left of ^
+				pc.prog.query = c11BoundCaret(r, which, tmpl, goal, inst)
+				return pc
+			}
 			if which != "findall" && r.coin(0.3) {
 				// the goal reaches bagof/setof through a variable bound at call time
 				mv := gv(9)
